@@ -16,6 +16,7 @@
 -/
 import ClockBound.Rs.DictShm
 import ClockBound.Rs.Embed
+import ClockBound.Model.HeaderProg
 namespace ClockBound.Rs.EmbedShm
 open ClockBound ClockBound.Rs ClockBound.Rs.DictShm
 
@@ -96,4 +97,79 @@ instance (inp : Nat → Nat) (n : Nat) : Decidable (inpInRange inp n) := by unfo
 def readerOutcome (p : List SL.Acc × SL.RResult × Nat × List Nat) : Outcome :=
   .ok (resultValue p.2.1) (readerValue p.2.2.1 p.2.2.2) (p.1.map accValue)
 
+/-! ### the header (`Properties/CodeTieHeader.lean`) -/
+
+/-- a `ShmHeader` VALUE (the private copy `ShmHeader::read` builds from the 16 bytes it read): the magic
+    array and the three atomics, holding the parsed fields -/
+def headerValue (h : Header) : Value :=
+  .struct "ShmHeader" [
+    ("generation", atomicVal (.int .u16 h.generation)),
+    ("magic", .list [.int .u32 h.magic0, .int .u32 h.magic1]),
+    ("segsize", atomicVal (.int .u32 h.segsize)),
+    ("version", atomicVal (.int .u16 h.version))]
+
+/-- `size_of::<T>()` of the two `#[repr(C)]` structs (`Properties/C17.lean`: `rust_header_layout`,
+    `rust_record_layout` tie 16 and 56 to the source); inside `impl ShmHeader`, `Self` is `ShmHeader` -/
+def sizes : List (String × Nat) :=
+  [("ShmHeader", HEADER_SIZE), ("ClockErrorBound", RECORD_SIZE), ("Self", HEADER_SIZE)]
+
+/-- `ShmError` values -/
+def shmErrValue : ShmErr → Value
+  | .sys e o => .enumv "ShmError::SyscallError" [errnoValue (.int .i32 e), .str o.text]
+  | .notInit => .enumv "ShmError::SegmentNotInitialized" []
+  | .malformed => .enumv "ShmError::SegmentMalformed" []
+
+/-- `Result<(), ShmError>` of `is_valid` -/
+def validValue : Except ShmErr Header → Value
+  | .ok _ => .enumv "Ok" [.tuple []]
+  | .error e => .enumv "Err" [shmErrValue e]
+
+/-- `Result<ShmHeader, ShmError>` of `ShmHeader::read` -/
+def readValue : Except ShmErr Header → Value
+  | .ok h => .enumv "Ok" [headerValue h]
+  | .error e => .enumv "Err" [shmErrValue e]
+
+/-- a list of answers as an input stream -/
+def streamOf (l : List Value) : Nat → Value := fun k => l.getD k .unit
+
+/-- the path argument (`&CStr`) -/
+def cstrValue : Value := .ext "CStr" [.str "path"]
+
+/-- the `ShmReader` that `ShmReader::new` returns on a segment whose header declares `segsize` bytes: the
+    three pointers into the mapping, the guard, and the initial cache (`ClockErrorBound::default()`,
+    generation 0) -/
+def freshReaderValue (segsize : Nat) : Value :=
+  .struct "ShmReader" [
+    ("_guard", .struct "MmapGuard" [("segment", addr "segment"), ("segsize", .int .usize segsize)]),
+    ("_marker", .opaque "PhantomData"),
+    ("ceb_shm", ptrCeb),
+    ("generation", ptrA16 "generation"),
+    ("snapshot_ceb", recordValue Record.empty),
+    ("snapshot_gen", .int .u16 0),
+    ("version", ptrA16 "version")]
+
+/-- `Result<ShmReader, ShmError>` of `ShmReader::new` -/
+def openValue : Except ShmErr Header → Value
+  | .ok h => .enumv "Ok" [freshReaderValue h.segsize]
+  | .error e => .enumv "Err" [shmErrValue e]
+
+/-- What the system calls on the open path answer for each state of the path — the assumptions spelt out
+    at `readerOpenLim` (`Model/Header.lean`): a missing path fails `open` with ENOENT; a directory opens
+    but `read` fails with EISDIR; on a regular file `read` returns min(16, length) and fills the buffer with
+    the first bytes; `mmap` of the declared size fails with ENOMEM iff it exceeds the limit.  Answers that
+    are never asked for (the code returned before) are simply not consumed. -/
+def openAnswers (lim : Option Nat) (fd : Nat) : FileState → List Value
+  | .missing => [.int .infer (-1), .int .infer ENOENT]
+  | .directory => [.int .infer fd, .int .infer (-1), .int .infer EISDIR]
+  | .file bs =>
+    [.int .infer fd, .int .infer (readRet bs), headerValue (parseHeader bs)] ++
+    (if mapFails lim (parseHeader bs).segsize then [addr "MAP_FAILED", .int .infer ENOMEM] else [addr "segment"])
+
 end ClockBound.Rs.EmbedShm
+
+namespace ClockBound.Rs
+/-- the outcome without its event log (return value and final `self` only) -/
+def Outcome.noLog : Outcome → Outcome
+  | .ok v s _ => .ok v s []
+  | o => o
+end ClockBound.Rs
